@@ -533,6 +533,7 @@ func (e *Exec) sliceOp(instr *ssa.Slice, x, lo, hi, max Value) Value {
 // ---- maps ----
 
 func (e *Exec) mapFind(m *Map, k Value) *mapEntry {
+	e.noteMapAccess(m, false)
 	for _, en := range m.entries {
 		if e.Branch(e.valueEq(m.keyT, en.k, k)) {
 			return en
@@ -542,6 +543,7 @@ func (e *Exec) mapFind(m *Map, k Value) *mapEntry {
 }
 
 func (e *Exec) mapInsert(m *Map, k, v Value) {
+	e.noteMapAccess(m, true)
 	if en := e.mapFind(m, k); en != nil {
 		*en.v = v
 		return
@@ -555,6 +557,7 @@ func (e *Exec) mapDelete(m *Map, k Value) {
 	if m == nil {
 		return
 	}
+	e.noteMapAccess(m, true)
 	for i, en := range m.entries {
 		if e.Branch(e.valueEq(m.keyT, en.k, k)) {
 			m.entries = append(append([]*mapEntry{}, m.entries[:i]...), m.entries[i+1:]...)
@@ -769,6 +772,8 @@ func (e *Exec) appendOp(s, add Slice, fn *ssa.Builtin) Value {
 	elem := add.St.elem
 	if s.St != nil {
 		elem = s.St.elem
+	} else if fn == nil {
+		elem = byteT
 	} else if sig, ok := fn.Type().(*types.Signature); ok {
 		if sl, ok := under(sig.Params().At(0).Type()).(*types.Slice); ok {
 			elem = sl.Elem()
